@@ -265,9 +265,15 @@ const runawayCap = 64
 var fanStalls int
 
 // waitGoroutines spins (yielding) until the number of live goroutines is at most want.
-func waitGoroutines(want int) bool {
+func waitGoroutines(want int) bool { return waitGoroutinesOr(want, nil) }
+
+// waitGoroutinesOr also stops waiting when *flag becomes non-zero.
+func waitGoroutinesOr(want int, flag *int32) bool {
 	deadline := time.Now().Add(10 * time.Second)
 	for i := 0; runtime.NumGoroutine() > want; i++ {
+		if flag != nil && atomic.LoadInt32(flag) != 0 {
+			return true
+		}
 		runtime.Gosched()
 		if i%1024 == 1023 && time.Now().After(deadline) {
 			return false
@@ -338,6 +344,7 @@ func runFan(c *c16Case, obs *c16Obs) {
 		client.Use(core.InvokeHandler(cluster.Broadcast))
 	}
 	client.Use(core.IOHandler(scripted))
+	var returned int32 // set when InvokeContext has returned (or panicked) in the invoker
 	ctlDone := make(chan string, 1)
 	if n > 0 {
 		go func() {
@@ -376,7 +383,10 @@ func runFan(c *c16Case, obs *c16Obs) {
 			verdict := "ok"
 			for r, i := range c.Order {
 				close(release[i])
-				if !waitGoroutines(base - (r + 1)) {
+				// wait until the released goroutine is gone — or the call has returned: then
+				// its result is final whatever the remaining goroutines do (and a plugin that
+				// ran the invocation on the caller's goroutine has no goroutine to wait for)
+				if !waitGoroutinesOr(base-(r+1), &returned) {
 					verdict = "slow"
 				}
 			}
@@ -409,6 +419,7 @@ func runFan(c *c16Case, obs *c16Obs) {
 			}()
 			o.res, o.err = client.InvokeContext(context.Background(), "f", nil)
 		}()
+		atomic.StoreInt32(&returned, 1)
 		resCh <- o
 		<-finish
 	}()
